@@ -98,10 +98,82 @@ def work(idxs):
     return res
 
 
+def work_start(start):
+    """a spec object configured for another start symbol (Fandango(..., start_symbol=...), `fandango parse --start-symbol`):
+    the API parse must yield exactly the grammar's forest FROM THAT SYMBOL, with and without a constraint"""
+    res = {"constraint": f"start_symbol={start}", "words": 0, "trees": 0, "yielded": 0, "viol": []}
+    for ctexts in (None, ['str(<d>) != "a"']):
+        spec = build(GRAMMAR, ctexts, start_symbol=start)
+        plain = build(GRAMMAR)
+        for w in words(["1", "2", "a", "x"], 4):
+            forest = [snap(t) for t in plain.grammar.parse_forest(w, start=start)]
+            if ctexts:
+                forest = [f for f in forest if "('T', 'a')" not in repr(f)]
+            try:
+                got = [snap(t) for t in spec.parse(w)]
+            except Exception:
+                got = []
+            res["words"] += 1
+            res["trees"] += len(forest)
+            res["yielded"] += len(got)
+            if sorted(map(repr, got)) != sorted(map(repr, forest)):
+                res["viol"].append({"kind": "api_parse_ignores_start_symbol", "start_symbol": start, "constraints": ctexts, "word": w,
+                                    "api_trees": [repr(g)[:120] for g in got][:3], "forest_from_start_symbol": [repr(f)[:120] for f in forest][:3],
+                                    "sig": "api_parse_ignores_start_symbol"})
+    return res
+
+
+def ref_grammar():
+    from mc.refgrammar import Alt, Lit, NT, Opt, Plus, RefGrammar, Seq
+    d = Alt((Lit("1"), Lit("2"), Lit("a"), Lit("12")))
+    return RefGrammar({"<start>": Seq((NT("<a>"), NT("<b>"))), "<a>": Seq((Plus(NT("<d>")), Opt(NT("<c>")))),
+                       "<b>": Alt((NT("<d>"), Seq((NT("<c>"), NT("<d>"))))), "<c>": Lit("x"), "<d>": d})
+
+
+def work_forest(start):
+    """the FOREST itself against independently enumerated derivations: every derivation of a word must be in the forest (a constraint
+    may single out any of them, so a forest that lost one makes some spec reject a word it generated itself)"""
+    from mc.refgrammar import enum_trees
+    res = {"constraint": f"forest_completeness:{start}", "words": 0, "trees": 0, "yielded": 0, "viol": []}
+    g = ref_grammar()
+    by_word: dict = {}
+    for t in enum_trees(g, start, 16, open_cap=5):
+        by_word.setdefault(snap_text(t), set()).add(t)
+    plain = build(GRAMMAR)
+    for w in words(["1", "2", "a", "x"], 5):
+        want = by_word.get(w, set())
+        got = {snap(t) for t in plain.grammar.parse_forest(w, start=start)}
+        res["words"] += 1
+        res["trees"] += len(want)
+        res["yielded"] += len(got)
+        if want - got:
+            missing = sorted(want - got)
+            # model of ONE recorded defect: of the 2^k derivations of a word with k >= 2 places that read "12" either as one <d> or as two,
+            # exactly the one that splits EVERY such place is lost when nothing follows the repetition
+            all_split = len(missing) == 1 and "'12'" not in repr(missing[0]) and w.count("12") >= 2 and len(want) == 2 ** w.count("12")
+            res["viol"].append({"kind": "forest_misses_derivation", "grammar": GRAMMAR, "start": start, "word": w, "derivations": len(want), "forest": len(got),
+                                "missing": repr(missing[0])[:300], "only_the_all_split_derivation_is_missing": all_split,
+                                "sig": f"forest_misses_derivation:all_split={all_split}"})
+    return res
+
+
+def run_forest(ctx):
+    results = pmap_tagged(work_forest, ["<start>", "<a>", "<b>"], chunk=1)
+    out = {"words": 0, "reference_derivations": 0, "forest_trees": 0}
+    for r in results:
+        out["words"] += r["words"]
+        out["reference_derivations"] += r["trees"]
+        out["forest_trees"] += r["yielded"]
+        for v in r["viol"]:
+            ctx.violation(v)
+    return out
+
+
 def run_api(ctx):
     js = jobs()
     n = len(js)
     results = pmap_tagged(work, js, chunk=1)
+    results += pmap_tagged(work_start, ["<a>", "<b>", "<d>", "<start>"], chunk=1)
     words_n = trees = yielded = 0
     for r in results:
         words_n += r["words"]
